@@ -50,6 +50,7 @@ func init() {
 	probes["O36"] = probeO36
 	probes["O37"] = probeO37
 	probes["O46"] = probeO46
+	probes["O50"] = probeO50
 	probes["O48"] = probeO48
 	probes["O49"] = probeO49
 	probes["O47"] = probeO47
@@ -712,5 +713,18 @@ func probeO49() (bool, string) {
 			return fmt.Sprint(err, " b=", m["b"])
 		})
 		return a != b, "sorted / reversed: " + a + " | " + b
+	})
+}
+
+func probeO50() (bool, string) {
+	return guard(func() (bool, string) {
+		c, _ := ucfg.NewFrom(map[string]interface{}{"a": nil, "b": nil})
+		c.Merge(c)
+		t := struct{ A *struct{ X int } }{}
+		c.Unpack(&t)
+		src, _ := ucfg.NewFrom(map[string]interface{}{"b": map[string]interface{}{"x": 1}}, ucfg.MetaData(ucfg.Meta{Source: "two.yml"}))
+		c.Merge(src)
+		_, err := c.Int("b", -1)
+		return t.A != nil || !strings.Contains(fmt.Sprint(err), "two.yml"), fmt.Sprint(t.A, " ", err)
 	})
 }
